@@ -442,6 +442,12 @@ func (e *Engine) makeReplay(dir, id string, o *SrcOblig) (bool, string) {
 	}()
 	if o.Result != "failed:sat" {
 		meta.Note = "no model: the solvers returned no counterexample (unknown/timeout)"
+		if n := e.fuzzFallback(dir, w, meta); n != "" {
+			meta.Note += "; " + n
+		}
+		if meta.Confirmed {
+			return true, " input=" + strings.Join(meta.Inputs, ";")
+		}
 		return false, ""
 	}
 	var note string
@@ -454,6 +460,11 @@ func (e *Engine) makeReplay(dir, id string, o *SrcOblig) (bool, string) {
 		note = e.replayFromModel(dir, w, meta)
 	}()
 	meta.Note = note
+	if !meta.Confirmed {
+		if n := e.fuzzFallback(dir, w, meta); n != "" {
+			meta.Note += "; " + n
+		}
+	}
 	if meta.Confirmed {
 		return true, " input=" + strings.Join(meta.Inputs, ";")
 	}
@@ -713,4 +724,138 @@ func runReplay(path string) int {
 	return 0
 }
 
-func (e *Engine) globalInvariants(s *State, t *Target) {}
+
+// fuzzFallback is used when the solver's model cannot be turned into inputs of the real function (it speaks about
+// a stubbed dependency, or there is no model): the executable contract is run on a fixed-plus-seeded corpus of
+// inputs, looking for a concrete failure of the same obligation kind. Only functions whose parameters are
+// strings, byte slices, integers and booleans are covered.
+func (e *Engine) fuzzFallback(dir string, w *Oblig, meta *replayMeta) string {
+	run := w.run
+	if run == nil {
+		return ""
+	}
+	fn := run.T.Fn
+	pkg := fn.Pkg.Pkg
+	var gens []string
+	for _, p := range fn.Params {
+		ts := typeStr(p.Type(), pkg)
+		switch u := p.Type().Underlying().(type) {
+		case *types.Basic:
+			switch {
+			case u.Kind() == types.String:
+				gens = append(gens, ts+"(string(corpusBytes[i%len(corpusBytes)]))")
+			case u.Info()&types.IsBoolean != 0:
+				gens = append(gens, ts+"(i%2 == 0)")
+			case u.Info()&types.IsInteger != 0:
+				gens = append(gens, ts+"(corpusInts[(i/3)%len(corpusInts)])")
+			default:
+				return ""
+			}
+		case *types.Slice:
+			if !elemIsByte(u.Elem()) {
+				return ""
+			}
+			gens = append(gens, ts+"(append([]byte(nil), corpusBytes[(i/7)%len(corpusBytes)]...))")
+		default:
+			return ""
+		}
+	}
+	kind := meta.Kind
+	if kind == "" {
+		switch {
+		case strings.Contains(meta.Obligation, "#safe."):
+			kind = "safe"
+		case strings.Contains(meta.Obligation, "#ensures["):
+			kind = "ensures"
+			i := strings.Index(meta.Obligation, "#ensures[")
+			meta.Post = strings.TrimSuffix(meta.Obligation[i+len("#ensures["):], "]")
+		case strings.Contains(meta.Obligation, "#lemma"):
+			kind = "lemma"
+		default:
+			return ""
+		}
+		meta.Kind = kind
+	}
+	if kind == "ensures" {
+		post := fn.Pkg.Func(meta.Post)
+		if post == nil {
+			return ""
+		}
+		for _, pp := range post.Params {
+			if strings.HasPrefix(pp.Name(), "old_") {
+				return "" // snapshots are not generated in the corpus harness
+			}
+		}
+	}
+	var src strings.Builder
+	fmt.Fprintf(&src, "//go:build verif\n\npackage %s\n\nimport (\n\t\"fmt\"\n\t\"math/rand\"\n\t\"testing\"\n)\n\n", pkg.Name())
+	fmt.Fprintf(&src, "// Corpus search for a concrete failure of obligation %s (the solver's model did not map to inputs).\n", meta.Obligation)
+	fmt.Fprintf(&src, "func TestVerifReplay(t *testing.T) {\n\trnd := rand.New(rand.NewSource(%d))\n\tvar corpusBytes [][]byte\n", seedVal())
+	fmt.Fprintf(&src, "\tfor n := 0; n <= 48; n++ {\n\t\tb := make([]byte, n)\n\t\tfor k := range b {\n\t\t\tb[k] = 'A'\n\t\t}\n\t\tcorpusBytes = append(corpusBytes, b)\n\t}\n")
+	fmt.Fprintf(&src, "\tfor n := 0; n < 64; n++ {\n\t\tb := make([]byte, rnd.Intn(70))\n\t\trnd.Read(b)\n\t\tcorpusBytes = append(corpusBytes, b)\n\t}\n")
+	fmt.Fprintf(&src, "\tcorpusInts := []int64{0, 1, -1, 2, 7, 255, 256, 65535, 65536, 1 << 31, -(1 << 31), 1<<63 - 1, -(1 << 63)}\n\t_ = corpusInts\n")
+	fmt.Fprintf(&src, "\tfor i := 0; i < 4000; i++ {\n\t\tfunc() {\n")
+	var argNames []string
+	for k, g := range gens {
+		fmt.Fprintf(&src, "\t\t\ta%d := %s\n", k, g)
+		argNames = append(argNames, fmt.Sprintf("a%d", k))
+	}
+	byName := map[string]string{}
+	for i, p := range fn.Params {
+		byName[p.Name()] = argNames[i]
+	}
+	if run.T.D.Pre != "" {
+		pre := fn.Pkg.Func(run.T.D.Pre)
+		var pa []string
+		for _, pp := range pre.Params {
+			pa = append(pa, byName[pp.Name()])
+		}
+		fmt.Fprintf(&src, "\t\t\tif !%s(%s) {\n\t\t\t\treturn\n\t\t\t}\n", run.T.D.Pre, strings.Join(pa, ", "))
+	}
+	fmt.Fprintf(&src, "\t\t\tdefer func() {\n\t\t\t\tif r := recover(); r != nil {\n\t\t\t\t\tfmt.Printf(\"REPLAY-PANIC: %%v input=%%q\\n\", r, fmt.Sprint(%s))\n\t\t\t\t}\n\t\t\t}()\n", strings.Join(argNames, ", "))
+	var call string
+	if fn.Signature.Recv() != nil {
+		return ""
+	}
+	call = fmt.Sprintf("%s(%s)", fn.Name(), strings.Join(argNames, ", "))
+	nres := fn.Signature.Results().Len()
+	var resNames []string
+	for i := 0; i < nres; i++ {
+		resNames = append(resNames, fmt.Sprintf("res%d", i))
+	}
+	if nres > 0 {
+		fmt.Fprintf(&src, "\t\t\t%s := %s\n", strings.Join(resNames, ", "), call)
+		for _, r := range resNames {
+			fmt.Fprintf(&src, "\t\t\t_ = %s\n", r)
+		}
+	} else {
+		fmt.Fprintf(&src, "\t\t\t%s\n", call)
+	}
+	switch kind {
+	case "lemma":
+		fmt.Fprintf(&src, "\t\t\tif !res0 {\n\t\t\t\tfmt.Printf(\"REPLAY-POST-FALSE: lemma input=%%q\\n\", fmt.Sprint(%s))\n\t\t\t}\n", strings.Join(argNames, ", "))
+	case "ensures":
+		post := fn.Pkg.Func(meta.Post)
+		var pa []string
+		for _, pp := range post.Params {
+			nm := pp.Name()
+			if strings.HasPrefix(nm, "res") && isDigits(nm[3:]) {
+				pa = append(pa, nm)
+			} else {
+				pa = append(pa, byName[nm])
+			}
+		}
+		fmt.Fprintf(&src, "\t\t\tif !%s(%s) {\n\t\t\t\tfmt.Printf(\"REPLAY-POST-FALSE: %s input=%%q\\n\", fmt.Sprint(%s))\n\t\t\t}\n", meta.Post, strings.Join(pa, ", "), meta.Post, strings.Join(argNames, ", "))
+	}
+	fmt.Fprintf(&src, "\t\t}()\n\t}\n\tfmt.Println(\"REPLAY-DONE\")\n}\n")
+	os.WriteFile(filepath.Join(dir, "replay_test.go"), []byte(src.String()), 0644)
+	out, confirmed := execReplay(dir, meta)
+	meta.Confirmed = confirmed
+	if confirmed {
+		m := firstMarker(out)
+		meta.Inputs = []string{m}
+		return "a concrete failing input was found by the corpus search of the executable contract: " + m
+	}
+	os.Remove(filepath.Join(dir, "replay_test.go"))
+	return "corpus search over 4000 inputs found no concrete failure"
+}
